@@ -235,6 +235,11 @@ func (w *Worker) intrinsic(fn *ssa.Function, args []Value) (Value, bool) {
 		return tt.BV(64, uint64(w.curTask)), true
 	case "verifInEngine":
 		return tt.Bool(true), true
+	case "verifSched":
+		w.schedOn(int(w.concArg(args[0], "verifSched choices")))
+		return nil, true
+	case "verifSchedDrain":
+		return tt.BV(64, uint64(w.schedDrain())), true
 	case "verifDivZeroPrune":
 		w.cfg.DivZeroPrune = args[0].(*Term).B
 		return nil, true
